@@ -50,21 +50,29 @@ class Node:
 class _K:
     """Builder context."""
 
-    def __init__(self, exc, finalizers, loop=None):
+    def __init__(self, exc, finalizers, loop=None, ret=None, fin_base=0, depth=0):
         self.exc = exc  # node id receiving exceptions
         self.finalizers = finalizers  # list of finalizer records (innermost last)
         self.loop = loop  # (loop_head_id, break_collector list, finalizer depth at loop entry)
+        self.ret = ret  # None: `return` leaves the function; list: collector of return edges of an inlined helper
+        self.fin_base = fin_base  # finalizer depth at entry of the (inlined) function body
+        self.depth = depth  # inlining depth
 
     def with_(self, **kw):
-        k = _K(self.exc, self.finalizers, self.loop)
+        k = _K(self.exc, self.finalizers, self.loop, self.ret, self.fin_base, self.depth)
         for a, v in kw.items():
             setattr(k, a, v)
         return k
 
 
 class CFG:
-    def __init__(self, func_node):
+    def __init__(self, func_node, inline=None):
+        """inline: optional callable(call node, enclosing FunctionDef) -> FunctionDef of a private helper whose body is
+        spliced in at the call statement (returns continue after the call, exceptions go to the caller's handlers)."""
         self.func = func_node
+        self.inline = inline
+        self.inlined_defs = []  # FunctionDef nodes whose bodies were spliced in
+        self._inline_stack = [func_node]
         self.g = nx.DiGraph()
         self.nodes: Dict[int, Node] = {}
         self._n = 0
@@ -166,8 +174,12 @@ class CFG:
         if isinstance(st, ast.Return):
             n = self._stmt_node('stmt', st, preds, k)
             self._exc_edge(n, k, st.value)
-            outs = self._run_finalizers([(n.id, 'return')], k, 0)
-            self._connect(outs, self.exit.id)
+            after = self._maybe_inline(st, st.value, [(n.id, 'return')], k)
+            outs = self._run_finalizers(after, k, k.fin_base)
+            if k.ret is None:
+                self._connect(outs, self.exit.id)
+            else:
+                k.ret.extend(outs)
             return []
         if isinstance(st, ast.Raise):
             n = self._stmt_node('stmt', st, preds, k)
@@ -185,7 +197,29 @@ class CFG:
         # simple statement
         n = self._stmt_node('stmt', st, preds, k)
         self._exc_edge(n, k)
-        return [(n.id, 'next')]
+        value = getattr(st, 'value', None)
+        return self._maybe_inline(st, value, [(n.id, 'next')], k)
+
+    def _maybe_inline(self, st, value, outs, k: _K):
+        """If the statement's value is a call of an inlinable private helper, splice the helper's body after the call node."""
+        if self.inline is None or k.depth >= 3 or not isinstance(value, (ast.Call, ast.Await)):
+            return outs
+        call = value.value if isinstance(value, ast.Await) else value
+        if not isinstance(call, ast.Call):
+            return outs
+        target = self.inline(call, self._inline_stack[-1])
+        if target is None or any(target is f for f in self._inline_stack):
+            return outs
+        if any(isinstance(x, (ast.Yield, ast.YieldFrom)) for x in ast.walk(target)):
+            return outs
+        self.inlined_defs.append(target)
+        self._inline_stack.append(target)
+        rets = []
+        kk = _K(k.exc, k.finalizers, None, rets, len(k.finalizers), k.depth + 1)
+        body = target.body if isinstance(target.body, list) else [ast.Return(value=target.body)]
+        fall = self._seq(body, outs, kk)
+        self._inline_stack.pop()
+        return fall + rets
 
     # ---- conditions, conjunct-split with polarity pushing
     def _cond(self, expr, preds, k: _K):
@@ -452,11 +486,11 @@ class CFG:
         return {'nodes': self.g.number_of_nodes(), 'edges': self.g.number_of_edges()}
 
 
-_CFG_CACHE: Dict[int, CFG] = {}
+_CFG_CACHE: Dict[Tuple, CFG] = {}
 
 
-def cfg_of(func_info) -> CFG:
-    key = id(func_info.node)
+def cfg_of(func_info, inline=None) -> CFG:
+    key = (id(func_info.node), inline is not None)
     if key not in _CFG_CACHE:
-        _CFG_CACHE[key] = CFG(func_info.node)
+        _CFG_CACHE[key] = CFG(func_info.node, inline)
     return _CFG_CACHE[key]
